@@ -726,34 +726,37 @@ theorem inv_foldl_register (args q : List Nat) (s : S) (h : Inv args q s) (hr : 
     have := inv_register args q g s h hr
     exact ih _ this.1 this.2
 
+theorem inv_init0 (st : List FState) (args : List Nat) (hnd : args.Nodup) :
+    Inv args args { st := st, args := args, listening := [], unfinished := mkUnfinished args 0 [], finished := [],
+                    running := none, outs := [], yielded := [], curIdx := none, cbErrs := 0, compl := [], ready := [] } := by
+  refine ⟨?_, ?_, rfl⟩
+  · constructor
+    · exact hnd
+    · intro f hf; exact ⟨hf, by simp, by simp⟩
+    · simp
+    · intro f hf; cases hf
+    · intro f hf; cases hf
+    · simp
+    · intro g hg; cases hg
+    · simp [cbs]
+    · intro f hf; exact Or.inl hf
+  · constructor
+    · rfl
+    · intro f _
+      have := lookup_mkUnfinished args 0 [] f hnd (fun g _ => rfl)
+      simp only [lookup_nil] at this
+      simp only [this]
+      cases Spec.indexOf args f <;> simp
+    · intro p hp; cases hp
+    · intro hh; rfl
+    · exact ⟨rfl, by simp⟩
+    · intro hh; simp [runningPending] at hh
+    · intro j hj; simp at hj
+    · intro p _; simp
+
 theorem inv_init (st : List FState) (args : List Nat) (hnd : args.Nodup) : Inv args [] (init st args) := by
   simp only [init]
-  apply inv_foldl_register
-  · refine ⟨?_, ?_, rfl⟩
-    · constructor
-      · exact hnd
-      · intro f hf; exact ⟨hf, by simp, by simp⟩
-      · simp
-      · intro f hf; cases hf
-      · intro f hf; cases hf
-      · simp
-      · intro g hg; cases hg
-      · simp [cbs]
-      · intro f hf; exact Or.inl hf
-    · constructor
-      · rfl
-      · intro f _
-        have := lookup_mkUnfinished args 0 [] f hnd (fun g _ => rfl)
-        simp only [lookup_nil] at this
-        simp only [this]
-        cases Spec.indexOf args f <;> simp
-      · intro p hp; cases hp
-      · intro hh; rfl
-      · exact ⟨rfl, by simp⟩
-      · intro hh; simp [runningPending] at hh
-      · intro j hj; simp at hj
-      · intro p _; simp
-  · rfl
+  exact inv_foldl_register args args _ (inv_init0 st args hnd) rfl
 
 theorem reach (st : List FState) (args : List Nat) (ops : List Op) (hnd : args.Nodup) :
     Inv args [] (run (init st args) ops) := inv_run args ops _ (inv_init st args hnd)
